@@ -6,6 +6,7 @@
    only, so the transcript layout exists only in the repository and here. *)
 From Coq Require Import List ZArith NArith Bool.
 Require Import Mixin.Base.Res Mixin.Gen.Consts Mixin.Model.Group Mixin.Model.Aggregate Mixin.Model.Cosi.
+Require Export Mixin.Model.Limbs.
 Import ListNotations.
 Open Scope Z_scope.
 
@@ -16,7 +17,7 @@ Inductive op :=
 | OResponse (priv random : Z) (obs : res Z)
 | OVerifyResp (signer : Z) (s : option Z) (obs : res unit)
 | OAggResp (rs : list (Z * option Z)) (strict : bool) (obs : res Z)
-| OFullVerify (keys : list Z) (r s : Z) (mask : N) (m : N) (threshold : Z) (obs : res unit).
+| OFullVerify (keys' : option (list Z)) (r s : Z) (mask : N) (m : N) (threshold : Z) (obs : res unit).
 
 Inductive case :=
 (* CosiAggregateCommitment: observed (encoding of the aggregated commitment, mask) *)
@@ -38,7 +39,8 @@ Definition check_op et ht keys m (c : cosi) (o : op) : bool :=
   | OAggResp rs strict obs =>
       res_eqb Z.eqb (rmap c_s (aggregate_response L enc H keys rs m strict c)) obs
   | OFullVerify keys' r s mask m' threshold obs =>
-      res_eqb unit_eqb (full_verify L enc H keys' threshold m' (mkCosi r s mask (c_commits c))) obs
+      let ks := match keys' with Some k => k | None => keys end in
+      res_eqb unit_eqb (full_verify L enc H ks threshold m' (mkCosi r s mask (c_commits c))) obs
   end.
 
 Definition check (c : case) : bool :=
@@ -58,7 +60,7 @@ Definition miss_enc (et : list (Z * N)) (zs : list Z) : list need :=
   flat_map (fun z => match lookup_z et z with Some _ => [] | None => [(0, [z])] end) zs.
 
 Definition miss_hash (ht : list (list N * Z)) (bs : list (list N)) : list need :=
-  flat_map (fun b => match lookup_b ht b with Some _ => [] | None => [(1, map Z.of_N b)] end) bs.
+  flat_map (fun b => match lookup_b ht b with Some _ => [] | None => [(1, pack b)] end) bs.
 
 (* lookups of one Schnorr/CoSi challenge over (r, mask) *)
 Definition cosi_needs et ht (keys : list Z) (m : N) (r : Z) (mask : N) : list need :=
@@ -73,7 +75,8 @@ Definition cosi_needs et ht (keys : list Z) (m : N) (r : Z) (mask : N) : list ne
 
 Definition op_needs et ht keys m (c : cosi) (o : op) : list need :=
   match o with
-  | OFullVerify keys' r s mask m' _ _ => cosi_needs et ht keys' m' r mask
+  | OFullVerify keys' r s mask m' _ _ =>
+      cosi_needs et ht (match keys' with Some k => k | None => keys end) m' r mask
   | _ => cosi_needs et ht keys m (c_r c) (c_mask c)
   end.
 
@@ -95,5 +98,10 @@ Definition needs (c : case) : list need :=
       | _ => []
       end
   | CFlow et ht keys m cr cs mask commits ops =>
-      dedup_needs (flat_map (op_needs et ht keys m (mkCosi cr cs mask commits)) ops) []
+      let ns := dedup_needs (flat_map (op_needs et ht keys m (mkCosi cr cs mask commits)) ops) [] in
+      (* hash requests are the last stage: (2,[]) tells the harness not to ask again *)
+      match ns with
+      | [] => []
+      | _ => if existsb (fun n => fst n =? 0) ns then ns else ns ++ [(2, [])]
+      end
   end.
